@@ -29,6 +29,10 @@ type FuncResult struct {
 	Script    *Script
 	Blocking  []string
 	Vacuous   bool
+	// for the replay of counterexamples
+	Fn       *ssa.Function
+	Args     []*Val
+	Logicals map[string]*Val
 }
 
 func verifyFunction(P *Program, key string) (res *FuncResult) {
@@ -66,6 +70,7 @@ func verifyFunction(P *Program, key string) (res *FuncResult) {
 			}
 		}
 		res.Obls = x.obls
+		res.Fn, res.Logicals = fn, x.logicals
 		res.Warnings = x.warnings
 		res.Script = x.sc
 		res.Blocking = x.blocking
@@ -107,6 +112,7 @@ func verifyFunction(P *Program, key string) (res *FuncResult) {
 		bindings = append(bindings, x.freeVarBinding(st, fv))
 	}
 	x.stack = nil
+	res.Args = args
 	if ctr != nil {
 		bvals := x.bindingValues(st, fn, bindings)
 		x.clauseFn = fn
